@@ -84,4 +84,19 @@ CHECKS = {
         "level_note": "Trusts testing/synctest's quiescence detection and fake clock and the channel readiness model (disagreement = exit 2). Blocking inside host (native) code is out of scope. Programs come from the block catalogue only.",
         "assumptions": ["non-terminating programs never finish on their own within the step cap", "an already-cancelled context may yield either ctx.Err() or the program's own outcome"],
     },
+    "C10": {
+        "id": "C10", "pkg": "c10", "test": "TestC10", "level": "exploration",
+        "runs": {"quick": 800, "thorough": 60000},
+        "race_runs": {"quick": 120, "thorough": 6000},
+        "chunk": 300, "run_timeout_s": 30,
+        "rule": "each run is an episode: one artefact (50% template set with by-value and pointer-passed variables, macros, imports/extends/render, Markdown conversion, stringers; 30% sequential skeleton program with natives, callbacks, defers, package-level state and a per-run Stop/Fatal plan; 20% concurrent program) is built once and run by 2-8 (thorough: up to 32) simulated clients, 1-3 runs each, inputs drawn per run from 1-3 distinct inputs, interleaved by the seeded scheduler at instruction granularity with extra yields inside natives, the writer, the converter and stringers; every run is compared with a solo run of a freshly built copy with the same input. "
+                "evaluations = runs (solo references included); distinct_nontrivial = distinct (artefact, context-switch trace) pairs with at least one context switch",
+        "components": {"real": ["scriggo.Build / BuildTemplate", "Program.Run / Template.Run from several goroutines on one compiled artefact", "VM, renderer, escapers, initGlobalVariables / initPackageLevelVariables, NativeFunction.argsPool, callable caches", "Go race detector (race-mode runs)"],
+                       "stub": ["client goroutines and their scheduling (seeded scheduler)", "native package h, io.Writer, Markdown converter, Stringer values: simulator-owned yield points"]},
+        "engine": "vmsim", "design_ref": "DESIGN.md section 5, C10",
+        "technique": "deterministic simulation: seeded interleaving of concurrent and repeated runs of one compiled artefact, self-referential oracle (fresh build, solo run), race detector under the serial replayable schedule",
+        "level_text": "Seeded search over histories (which client runs which input when) and interleavings of runs sharing one compiled artefact. Oracle: bytes written, printed text, native event sequence, error / panic value and the values of pointer-passed variables of every run equal those of a solo run of a fresh build; no deadlock or step cap; in race mode no race-detector report (goroutines park on private condition variables, so only the interpreter's own synchronisation orders their steps).",
+        "level_note": "Self-referential: a defect that affects solo and concurrent runs alike is invisible here (it belongs to other properties). sync.Pool retention and allocation addresses are not observed. Trusts the scheduler's determinism (self-tested on every run).",
+        "assumptions": ["natives and stringers used by the artefacts are themselves reentrant", "inputs passed by pointer are not shared between concurrent runs by the caller"],
+    },
 }
